@@ -1,6 +1,7 @@
 //! Property registry: generation profile, run options, oracle and coverage signature per property.
 
 use crate::ledger::*;
+use crate::oracle_cred;
 use crate::oracle_tx;
 use crate::runner::{hist_sig, PropSpec};
 use crate::util::hash_of;
@@ -305,8 +306,259 @@ fn c12() -> PropSpec {
     }
 }
 
+// ---- C07 -------------------------------------------------------------------------------------
+
+fn check_c07(l: &Ledger, _e: &[(String, String)], _s: &PropSpec) -> Vec<Violation> {
+    oracle_cred::check_c07(l)
+}
+
+/// Reply-class sequence per transaction: for every response/indication handed to the client, the class of
+/// its integrity protection as the independent verifier sees it, together with the client's reaction.
+fn reply_classes(l: &Ledger) -> Vec<(u8, u8, u8, u8)> {
+    let key = l.cfg.password.as_bytes().to_vec();
+    let mut seq = vec![];
+    for st in &l.steps {
+        if let Call::Recv { bytes, .. } = &st.call {
+            if let Some(s) = oracle_cred::see(bytes) {
+                if s.p.class == 0 {
+                    continue;
+                }
+                let c = |has: bool, t: u16| -> u8 {
+                    if !has {
+                        0
+                    } else if crate::wire::verify_integrity(bytes, &s.p, t, &key) == crate::wire::Verdict::Good {
+                        1
+                    } else {
+                        2
+                    }
+                };
+                let res = match (&st.result, st.events.first()) {
+                    (CallResult::Ok, Some(Ev::Received(_))) => 0u8,
+                    (CallResult::Ok, Some(Ev::Failed(..))) => 1,
+                    (CallResult::Ok, Some(Ev::Retry(_))) => 2,
+                    (CallResult::Err(_), _) => 3,
+                    _ => 4,
+                };
+                seq.push((s.p.class, c(s.has_mi, crate::wire::A_MI), c(s.has_sha, crate::wire::A_MI256), res));
+            }
+        }
+    }
+    seq
+}
+
+fn sig_c07(l: &Ledger) -> Vec<u64> {
+    if !matches!(l.cfg.mech, crate::server::Mech::ShortTerm(_)) {
+        return vec![];
+    }
+    let seq = reply_classes(l);
+    if seq.len() < 2 {
+        return vec![];
+    }
+    vec![hash_of(&(seq, l.cfg.is_reliable(), crate::world::mech_to_str(&l.cfg.mech)))]
+}
+
+fn c07() -> PropSpec {
+    let mut p = Profile::base("short-term");
+    p.mech_w = [0, 3, 1, 1, 0];
+    p.p_srv_integ = 350;
+    p.p_srv_code = 150;
+    p.p_srv_dup = 100;
+    p.p_indication = 150;
+    p.inj_w = [2, 1, 1, 6, 1, 0, 2, 1, 0, 2];
+    p.n_inj = (0, 4);
+    p.n_app = (1, 6);
+    p.rc = (1, 5);
+    p.p_corrupt = 30;
+    PropSpec {
+        id: "C07",
+        tag: 7,
+        level: "exploration",
+        profile: p,
+        opts: RunOpts::default(),
+        check: check_c07,
+        signature: sig_c07,
+        rule: "seeded random plans with short-term credentials (algorithm preconfigured to MI / SHA256 or left to be learned; server replies per request drawn from {valid MI, valid SHA256, both, none, corrupted MAC, MAC under another password, the non-agreed algorithm, duplicates} for success/error responses and indications; both transports; interleaved with timers and further requests); non-trivial = at least two replies reached the client; distinct = distinct sequence of (message class, MI verdict, SHA256 verdict, client reaction) x transport x initial algorithm",
+        quick_runs: 300_000,
+        thorough_runs: 8_000_000,
+        required_probes: &[],
+        extra: None,
+        assumptions: COMMON_ASSUMPTIONS,
+    }
+}
+
+// ---- C08 -------------------------------------------------------------------------------------
+
+fn check_c08(l: &Ledger, _e: &[(String, String)], _s: &PropSpec) -> Vec<Violation> {
+    oracle_cred::check_c08(l)
+}
+
+fn sig_c08(l: &Ledger) -> Vec<u64> {
+    if l.cfg.mech != crate::server::Mech::LongTerm {
+        return vec![];
+    }
+    // server-behaviour sequence: (class, error code, integrity presence, client reaction) per delivered response
+    let mut seq = vec![];
+    for st in &l.steps {
+        if let Call::Recv { bytes, .. } = &st.call {
+            if let Some(s) = oracle_cred::see(bytes) {
+                if s.p.class < 2 {
+                    continue;
+                }
+                let res = match (&st.result, st.events.first()) {
+                    (CallResult::Ok, Some(Ev::Received(_))) => 0u8,
+                    (CallResult::Ok, Some(Ev::Failed(..))) => 1,
+                    (CallResult::Ok, Some(Ev::Retry(_))) => 2,
+                    (CallResult::Err(_), _) => 3,
+                    _ => 4,
+                };
+                seq.push((s.p.class, s.p.error_code().unwrap_or(0), s.has_mi, s.has_sha, s.p.count(crate::wire::A_PASSWORD_ALGORITHMS) > 0, res));
+            }
+        }
+    }
+    if seq.len() < 2 {
+        return vec![];
+    }
+    vec![hash_of(&(seq, l.cfg.is_reliable()))]
+}
+
+fn c08() -> PropSpec {
+    let mut p = Profile::base("long-term");
+    p.mech_w = [0, 0, 0, 0, 1];
+    p.p_srv_lt = 300;
+    p.p_srv_integ = 150;
+    p.p_srv_code = 120;
+    p.p_app_collide = 400;
+    p.p_app_attrs = 500;
+    p.n_app = (1, 5);
+    p.n_inj = (0, 3);
+    p.inj_w = [2, 1, 1, 2, 1, 0, 1, 1, 0, 2];
+    p.p_retry_ignore = 50;
+    p.p_corrupt = 20;
+    p.p_indication = 60;
+    PropSpec {
+        id: "C08",
+        tag: 8,
+        level: "exploration",
+        profile: p,
+        opts: RunOpts::default(),
+        check: check_c08,
+        signature: sig_c08,
+        rule: "seeded random conversations with long-term credentials (up to 5 application requests x up to 4 retries; server behaviours drawn per request from {401 with/without PASSWORD-ALGORITHMS, anonymity bit, plain or cookie nonce; 438 with new nonce; authenticated success; unauthenticated / wrongly keyed / wrong-kind success; other error codes with and without integrity; unsupported algorithm list; missing realm/nonce/error-code}; application-supplied credential attributes; both transports; network faults on top); every request the client emits after a challenge is run through an independent RFC 8489 9.2.4 acceptance predicate; non-trivial = at least two responses reached the client; distinct = distinct sequence of (class, error code, integrity attrs, algorithms offered, client reaction) x transport",
+        quick_runs: 300_000,
+        thorough_runs: 8_000_000,
+        required_probes: &[],
+        extra: None,
+        assumptions: COMMON_ASSUMPTIONS,
+    }
+}
+
+// ---- C10 -------------------------------------------------------------------------------------
+
+fn check_c10(l: &Ledger, _e: &[(String, String)], _s: &PropSpec) -> Vec<Violation> {
+    oracle_cred::check_c10_client(l)
+}
+
+fn sig_c10(l: &Ledger) -> Vec<u64> {
+    if !l.cfg.fp {
+        return vec![];
+    }
+    let mut out = vec![];
+    for st in &l.steps {
+        if let Call::Recv { bytes, fault, .. } = &st.call {
+            if let Some(s) = oracle_cred::see(bytes) {
+                if s.p.class == 0 {
+                    continue;
+                }
+                let verdict = s.fp as u8;
+                let res = matches!(st.result, CallResult::Ok);
+                let shape: Vec<u16> = s.p.types();
+                let region = fault.clone();
+                out.push(hash_of(&(region, shape, crate::world::mech_to_str(&l.cfg.mech), verdict, res, s.p.class)));
+            }
+        }
+    }
+    out
+}
+
+fn c10() -> PropSpec {
+    let mut p = Profile::base("fingerprint");
+    p.p_fp = 1000;
+    p.p_srv_fp = 300;
+    p.p_corrupt = 200;
+    p.p_splice = 60;
+    p.inj_w = [2, 1, 1, 5, 1, 1, 1, 1, 0, 2];
+    p.n_inj = (0, 4);
+    p.p_drop = 60;
+    PropSpec {
+        id: "C10",
+        tag: 10,
+        level: "fault_enumeration",
+        profile: p,
+        opts: RunOpts::default(),
+        check: check_c10,
+        signature: sig_c10,
+        rule: "client half: seeded random plans with a fingerprint-configured client under every mechanism; responses and indications arrive with valid, corrupted (bit/byte/length faults in flight), absent or spliced FINGERPRINT; distinct = distinct (fault kind, message attribute shape, mechanism, independent CRC verdict, client verdict, class)",
+        quick_runs: 300_000,
+        thorough_runs: 6_000_000,
+        required_probes: &[],
+        extra: None,
+        assumptions: COMMON_ASSUMPTIONS,
+    }
+}
+
+// ---- C13 -------------------------------------------------------------------------------------
+
+fn check_c13(l: &Ledger, _e: &[(String, String)], _s: &PropSpec) -> Vec<Violation> {
+    oracle_cred::check_c13(l)
+}
+
+fn sig_c13(l: &Ledger) -> Vec<u64> {
+    let mut out = vec![];
+    for st in &l.steps {
+        let attrs = match &st.call {
+            Call::SendRequest { attrs, .. } | Call::SendIndication { attrs, .. } => attrs,
+            _ => continue,
+        };
+        if !matches!(st.result, CallResult::OkId(_)) {
+            continue;
+        }
+        // shape of the application list: token kinds with numbers stripped
+        let shape: Vec<String> = attrs.split(',').map(|t| t.trim_end_matches(|c: char| c.is_ascii_digit()).to_string()).collect();
+        if attrs == "-" {
+            continue;
+        }
+        let state = st.snap.cred.split(" params").next().unwrap_or("").to_string();
+        out.push(hash_of(&(shape, state, l.cfg.fp, matches!(st.call, Call::SendIndication { .. }))));
+    }
+    out
+}
+
+fn c13() -> PropSpec {
+    let mut p = Profile::base("output-tap");
+    p.p_app_attrs = 900;
+    p.p_app_collide = 450;
+    p.p_indication = 200;
+    p.n_app = (1, 6);
+    p.p_srv_lt = 200;
+    PropSpec {
+        id: "C13",
+        tag: 13,
+        level: "exploration",
+        profile: p,
+        opts: RunOpts::default(),
+        check: check_c13,
+        signature: sig_c13,
+        rule: "wire tap on everything the client emits along seeded random plans (all mechanisms and credential states, fingerprint on/off, application lists of 1-5 attributes in any order with duplicates and pre-populated USERNAME/USERHASH/REALM/NONCE/PASSWORD-ALGORITHM(S)/MI/MI-SHA256/FINGERPRINT); non-trivial = non-empty application list; distinct = distinct (application list shape, credential state tag, fingerprint setting, class)",
+        quick_runs: 300_000,
+        thorough_runs: 8_000_000,
+        required_probes: &[],
+        extra: None,
+        assumptions: COMMON_ASSUMPTIONS,
+    }
+}
+
 pub fn all() -> Vec<PropSpec> {
-    vec![c05(), c06(), c11(), c12()]
+    vec![c05(), c06(), c07(), c08(), c10(), c11(), c12(), c13()]
 }
 
 pub fn find(id: &str) -> Option<PropSpec> {
